@@ -92,6 +92,8 @@ class Graph:
             for reuse in (False, True):
                 self.events.append(("inv[%s,%s]" % (oname, "reused-objs" if reuse else "fresh-objs"), self._mk(oname, reuse)))
         self.events.append(("inv-pair[interleaved reads,fresh-objs]", self._mk_pair()))
+        if "regularization_matrix_only" in slots:
+            self.events.append(("two Preloads in succession, the second array re-using the freed address of the first", self._mk_addr()))
         # reference without preloads, on an independent identical dataset
         fx, objs = self._fresh()
         # the formalism the factory will actually pick: the preload slot can only switch w-tilde OFF
@@ -190,7 +192,48 @@ class Graph:
 
         return fn
 
+    def _mk_addr(self):
+        """
+        A preloaded matrix is identified by its CONTENT: preload H (coefficient 1), use it, free it, then preload a different matrix
+        H' (coefficient 3) that occupies the same address (CPython hands a freed ndarray header straight back to the next same-size
+        allocation) and check the outputs are those of H'. Returns the outputs of the second inversion followed by a marker.
+        """
+        def fn(ctx):
+            aa = ctx["aa"]
+            frame, ks, bits, kind, sub, (kinds, regs), wt, uw, slots, depth, seed = self.case
+
+            def objs_with(c):
+                return [fix_inv.make_obj(ctx["fx"], k, reg=r, seed=seed, coefficient=c) for k, r in zip(kinds, regs)]
+
+            st = lambda: fix_inv.settings(aa, self.wt, diag=1e-3)  # noqa: E731
+            H1 = np.array(aa.Inversion(dataset=ctx["ds"], linear_obj_list=objs_with(1.0), settings=st()).regularization_matrix).copy()
+            H3 = np.array(aa.Inversion(dataset=ctx["ds"], linear_obj_list=objs_with(3.0), settings=st()).regularization_matrix)
+            want = float(aa.Inversion(dataset=ctx["ds"], linear_obj_list=objs_with(3.0), settings=st()).log_det_regularization_matrix_term)
+            a = H1.copy()
+            addr = id(a)
+            first = float(aa.Inversion(dataset=ctx["ds"], linear_obj_list=objs_with(1.0), settings=st(), preloads=aa.Preloads(regularization_matrix=a)).log_det_regularization_matrix_term)
+            del a
+            got, reused = None, False
+            for _ in range(8):
+                b = H3.copy()
+                reused = id(b) == addr
+                got = float(aa.Inversion(dataset=ctx["ds"], linear_obj_list=objs_with(3.0), settings=st(), preloads=aa.Preloads(regularization_matrix=b)).log_det_regularization_matrix_term)
+                if reused or abs(got - want) > 1e-8 * max(1.0, abs(want)):
+                    break
+                del b
+            return [np.array([got - want]), np.array([0.0 * first])]
+
+        return fn
+
     def check(self, ctx, idx, res, hist_labels):
+        if self.events[idx][0].startswith("two Preloads in succession"):
+            if res[0] != "ok":
+                return [{"finding": "inversion-with-preloads:exception", "msg": "%s: %s" % (self.events[idx][0], res[1:])}]
+            d = float(res[1][0][0])
+            if abs(d) > 1e-8 * max(1.0, abs(float(self.ref["log_det_regularization_matrix_term"]))):
+                return [{"finding": "not-transparent:log_det_regularization_matrix_term:second-preloads-object",
+                         "msg": "a second Preloads(regularization_matrix=H') whose array re-uses the address of an earlier, freed preload gives a log-determinant off by %g" % d}]
+            return []
         viol = []
         label = self.events[idx][0]
         if res[0] != "ok":
